@@ -312,6 +312,7 @@ pub struct RunCfg {
     pub want_dump: bool,
     pub activity: Option<(f32, f32)>,
     pub gate_all: bool,
+    pub sort_fetches_deps: bool,
 }
 impl Default for RunCfg {
     fn default() -> Self {
@@ -323,6 +324,7 @@ impl Default for RunCfg {
             want_dump: cfg!(feature = "hooks"),
             activity: None,
             gate_all: false,
+            sort_fetches_deps: false,
         }
     }
 }
@@ -432,6 +434,7 @@ fn build_prov(c: &Case, cfg: &RunCfg) -> Prov {
     let mut p = Prov::with_mode(c.u.clone(), cfg.mode);
     *p.cancel_at.borrow_mut() = cfg.cancel_at.clone();
     p.gate_all = cfg.gate_all;
+    p.sort_fetches_deps = cfg.sort_fetches_deps;
     p
 }
 
